@@ -15,7 +15,7 @@ from . import Check
 META = set("'\"\\%_/-;.$()[]|*+?^{}\n\t") | set("éßü日")
 POSITIONS = ["eq", "ne", "lt", "is_in", "concat_r", "concat_l", "starts_with", "ends_with", "contains", "replace_sub",
              "replace_repl", "case_value", "case_cmp", "map_key", "map_value", "const_mutate", "fill_null", "coalesce",
-             "neg_num", "sub_num", "clip_str", "filter_eq", "hmax"]
+             "neg_num", "sub_num", "clip_str", "filter_eq", "hmax", "neg_const_col"]
 
 
 def lit_strategy():
@@ -42,10 +42,12 @@ def template(pos, L, col="s", num="n"):
         "const_mutate": L, "fill_null": f("fill_null", c, L), "coalesce": f("coalesce", c, L),
         "clip_str": f("clip", c, ["lit", ""], L), "filter_eq": f("eq", c, L), "hmax": f("hmax", c, L),
         "neg_num": f("add", f("neg", L), n), "sub_num": f("sub", n, L),
+        # the literal becomes a constant column first and is negated through the column reference
+        "neg_const_col": f("add", f("neg", ["col", {"c": "zk"}]), n),
     }[pos]
 
 
-NUM_POS = {"neg_num", "sub_num"}
+NUM_POS = {"neg_num", "sub_num", "neg_const_col"}
 NULL_POS = {"eq", "ne", "is_in", "case_cmp", "case_value", "fill_null", "coalesce", "map_value", "filter_eq"}
 
 
@@ -81,7 +83,10 @@ def c18_case(draw, tier):
         L = ["lit", enc(val)]
         e = template(pos, L)
         steps = [{"out": "v0", "verb": "source", "table": "t0"}]
-        if pos == "filter_eq":
+        if pos == "neg_const_col":
+            steps.append({"out": "vk", "verb": "mutate", "in": "v0", "items": [["zk", L]]})
+            steps.append({"out": "v1", "verb": "mutate", "in": "vk", "items": [["r", e]]})
+        elif pos == "filter_eq":
             steps.append({"out": "v1", "verb": "filter", "in": "v0", "preds": [e]})
         else:
             steps.append({"out": "v1", "verb": "mutate", "in": "v0", "items": [["r", e]]})
@@ -108,9 +113,9 @@ class C18(Check):
     ID = "C18"
     RULE = ("Hypothesis strategy: a literal (string over an alphabet with every SQL / LIKE / regex metacharacter, quotes, "
             "backslashes, comment and statement syntax, newlines, non-ASCII text, biased towards known tricky strings; or a "
-            "negative number; in 1 of 12 cases of the comparison / fill positions the value None) placed in one of 23 operator positions (==, !=, <, is_in, + both sides, starts_with, ends_with, "
+            "negative number; in 1 of 12 cases of the comparison / fill positions the value None) placed in one of 24 operator positions (==, !=, <, is_in, + both sides, starts_with, ends_with, "
             "literal contains, replace_all both arguments, case value / comparison, map key / value, constant mutate, "
-            "fill_null, coalesce, clip bound, filter predicate, horizontal max, unary minus, subtraction) over column data "
+            "fill_null, coalesce, clip bound, filter predicate, horizontal max, unary minus - also of a constant column made from the literal -, subtraction) over column data "
             "drawn from the same alphabet (incl. the literal itself and strings containing it). Oracle: (1) SQLite export "
             "equals the Polars export and the reference; (2) skeleton invariance of build_query() on SQLite, PostgreSQL "
             "and MSSQL: after removing string literals and numbers the statement equals the one built with a benign "
